@@ -51,7 +51,7 @@ def under_lock_rule(ctx, F, body, tag):
 
 
 def d1(ctx, F, label=""):
-    hs = F.one_body(r"^selium_server::server::handle_stream::\{closure#0\}$")
+    hs = K.handle_stream_body(ctx, F)
     gl, n = under_lock_rule(ctx, F, hs, "handle_stream" + label)
     ctx.floor("C17.D1.guard-locals" + label, len(gl), 1)
     sd = F.one_body(r"^selium_server::server::Server::shutdown::\{closure#0\}$")
@@ -77,7 +77,7 @@ def d1(ctx, F, label=""):
 
 
 def d2(ctx, F):
-    hs = F.one_body(r"^selium_server::server::handle_stream::\{closure#0\}$")
+    hs = K.handle_stream_body(ctx, F)
     pairs = [c for c in hs.calls() if c.name() == "pair" and "selium_server::topic::" in c.callee]
     ctx.floor("C17.D2.per-topic.pairs", len(pairs), 2)
     spawns = [c for c in hs.calls() if strip_generics(c.callee) == "tokio::task::spawn::spawn"]
